@@ -65,6 +65,7 @@ func runC16(c *Ctx) {
 		}
 	}
 
+	s.checkSnapshotOrder(c, "snapshot-before-render")
 	// ------------------------------------------------------------------ (1)
 	r1 := c.Rule("pipeline-order", "the function values passed to the apply / applyWithErr / validate stages of Load appear in the order: defaulting function, replica cloning, template rendering, executable/args assignment, validators; the render stage's error aborts Load")
 	want := "defaults,clone,render,assign,validate"
@@ -86,7 +87,7 @@ func runC16(c *Ctx) {
 			}
 			if ret, isRet := in.(*ssa.Return); isRet {
 				n++
-				if IsNilConst(ret.Results[len(ret.Results)-1]) {
+				if IsNilConst(RetVals(ret)[len(ret.Results)-1]) {
 					ok = false
 				}
 			}
@@ -707,7 +708,7 @@ func (p *Prog) freshValue(v ssa.Value, depth2 []*types.Var) (fresh bool, deep bo
 			if len(ret.Results) != 1 {
 				return false, false
 			}
-			r := stripConv(ret.Results[0])
+			r := stripConv(RetVals(ret)[0])
 			if IsNilConst(r) {
 				continue
 			}
@@ -765,4 +766,90 @@ func (p *Prog) freshValue(v ssa.Value, depth2 []*types.Var) (fresh bool, deep bo
 		return allFresh && n > 0, allDeep
 	}
 	return false, false
+}
+
+// checkSnapshotOrder (C13, C16, C17): scale-up and live update rebuild a process from the OriginalConfig snapshot
+// taken by the renderer, so (a) the snapshot is taken before anything is rendered into the configuration and (b)
+// every load-time mutator other than the executable/args assignment runs before the render stage - otherwise a
+// replica added at run time differs from the one a fresh load produces.
+func (s *Sel) checkSnapshotOrder(c *Ctx, ruleID string) {
+	p := c.P
+	rule := c.Rule(ruleID, "in the renderer the store of the marshalled process into OriginalConfig precedes every call of the template engine on every path; in Load every mutator stage function other than the executable/args assignment is applied before the render stage")
+	render := p.TryMethod("templater", "Templater", "RenderProcess")
+	assign := p.TryMethod("types", "ProcessConfig", "AssignProcessExecutableAndArgs")
+	fOrig := p.Field("types", "ProcessConfig", "OriginalConfig")
+	if !c.Check(render != nil && assign != nil, rule, "anchors", "", "renderer and assignment found", "RenderProcess / AssignProcessExecutableAndArgs not found") {
+		return
+	}
+	c.Touch(render)
+	// (a)
+	var engine *ssa.Function
+	for _, f := range p.FuncsOfPkg("templater") {
+		AllInstrs(f, func(in ssa.Instruction) {
+			if call, ok := in.(*ssa.Call); ok {
+				if o := CalleeObj(&call.Call); o != nil && o.Pkg() != nil && o.Pkg().Path() == "text/template" && o.Name() == "Execute" {
+					engine = f
+				}
+			}
+		})
+	}
+	if c.Check(engine != nil, rule, "engine", "", "template engine found", "no function executes a text/template") {
+		engD := p.Deep(CallOfFn("engine", engine))
+		snap := p.Deep(StoreTo("OriginalConfig", fOrig))
+		var engCalls []ssa.Instruction
+		AllInstrs(render, func(in ssa.Instruction) {
+			if call, ok := in.(*ssa.Call); ok && engD.MayAt(call) {
+				engCalls = append(engCalls, in)
+			}
+		})
+		r := MustPrecede(render, snap, func(in ssa.Instruction) bool { return isOneOf(in, engCalls) }, nil)
+		c.Check(r.OK && len(engCalls) > 0, rule, "renderer:snapshot-first", FirstPos(p, render), "the snapshot is taken before anything is rendered", "the renderer stores the OriginalConfig snapshot after (or not on every path before) rendering templates into the process: a replica added later by scaling is rebuilt from an already rendered snapshot and keeps another replica's command, working directory and probes")
+		// the snapshot is the marshalled process
+		okVal := false
+		for _, in := range DirectSites(render, StoreTo("OriginalConfig", fOrig)) {
+			v, _ := StoredValue(in, fOrig)
+			srcs, _ := p.Sources(v)
+			for _, l := range append(srcs, v) {
+				if ex, ok := stripConv(l).(*ssa.Extract); ok {
+					if call, ok := ex.Tuple.(*ssa.Call); ok {
+						if o := CalleeObj(&call.Call); o != nil && o.Pkg() != nil && o.Pkg().Path() == "encoding/json" && o.Name() == "Marshal" {
+							okVal = true
+						}
+					}
+				}
+			}
+		}
+		c.Check(okVal, rule, "renderer:snapshot-value", FirstPos(p, render), "the snapshot is json.Marshal of the process", "OriginalConfig is not the marshalled process configuration")
+	}
+	// (b)
+	lp := p.loadPipeline()
+	pos := 0
+	renderPos := -1
+	type ent struct {
+		f   *ssa.Function
+		pos int
+	}
+	var muts []ent
+	for _, st := range lp.Stages {
+		for _, f := range st.Fns {
+			pos++
+			if st.Kind == "validator" {
+				continue
+			}
+			if len(DirectSites(f, CallOfFn("render", render))) > 0 {
+				renderPos = pos
+				continue
+			}
+			if len(DirectSites(f, CallOfFn("assign", assign))) > 0 {
+				continue
+			}
+			muts = append(muts, ent{f, pos})
+		}
+	}
+	if c.Check(renderPos > 0, rule, "load:render-stage", FirstPos(p, lp.Load), "render stage found", "Load has no render stage") {
+		for _, m := range muts {
+			c.Check(m.pos < renderPos, rule, "load:before-render:"+p.FuncKey(m.f), FirstPos(p, m.f), "applied before the render stage", "the load-time mutator "+p.FuncKey(m.f)+" is applied after the render stage, i.e. after the OriginalConfig snapshot was taken: what it writes is missing from every replica that scaling or a live update rebuilds from the snapshot (they differ from a fresh load)")
+		}
+		c.Floor(rule, 5, "snapshot-order obligations")
+	}
 }
